@@ -205,6 +205,11 @@ pub fn analyze(sc: &Scenario, r: &RunResult) -> Vec<Violation> {
     for p in &r.panics {
         out.push(Violation { prop: "C09", msg: format!("panic: {}", p) });
     }
+    // a run cut off by the step budget finishes outside the scheduler: its remaining calls carry no usable
+    // time stamps, so the history-based monitors below do not apply to it
+    if r.outcome == Outcome::Budget {
+        return out;
+    }
 
     // C02: one order consistent with producers, real time and every consumer
     if let Some((a, _)) = h.cyclic {
